@@ -7,10 +7,6 @@ Record trg := {
   t_mlu : bool; t_aw16p : N; t_drift : N; t_scaled : N; t_aw16m : N; t_aw16b : N;
   t_bsc : N; t_bscm : N; t_coin : N; t_fw : N }.
 
-(* slice[a..a+n].try_into().unwrap() followed by uN::from_le_bytes *)
-Definition rd_le (l : list N) (a n : N) : res N :=
-  do s <- slice l a (a + n); do s' <- arr n s; Ok (le_val s').
-
 (* error kinds (only used for readability; observations compare Ok/Err only) *)
 Definition E_len := 0. Definition E_zero := 1. Definition E_hdr := 2. Definition E_in := 3.
 Definition E_drift := 4. Definition E_scaled := 5. Definition E_ftr := 6. Definition E_out := 7.
